@@ -17,6 +17,12 @@ class Call(Expression):
         return f'{self.func}({args})'
 
     def _compile(self, out, flags):
+        # A call without arguments is a plain reference. Compile it like one, so
+        # that both share the same entry of the memo table.
+        if not self.args:
+            self.func.compile(out, flags)
+            return
+
         args, kwargs = [], []
 
         for arg in self.args:
